@@ -151,7 +151,7 @@ def observe(seqs, names, via, gapfrac, gap_seed, history=None, nfiles=1, split_s
                 raise kal.Rejected("read of a part failed", {"rcs": [x["rc"] for x in pr.steps[len(pre):k]]})
             m = pr.steps[k]["msa"]
             if [q["seq"] for q in m["seqs"]] != list(seqs):
-                raise kal.Rejected("reader returned different residues (C04/C06 territory)", {"n": len(m["seqs"])})
+                raise kal.Rejected("reader returned different residues (C04/C06 territory)", {"n": len(m["seqs"]), "biotype": m["biotype"]})
             return m["biotype"]
     if via == "arr":
         if not pre:
@@ -182,7 +182,7 @@ def observe(seqs, names, via, gapfrac, gap_seed, history=None, nfiles=1, split_s
     m = pr.steps[len(pre) + 1]["msa"]
     got = [q["seq"] for q in m["seqs"]]
     if got != list(seqs):
-        raise kal.Rejected("reader returned different residues (C04/C06 territory)", {"n": len(got)})
+        raise kal.Rejected("reader returned different residues (C04/C06 territory)", {"n": len(got), "biotype": m["biotype"]})
     return m["biotype"]
 
 
@@ -255,6 +255,12 @@ def check(case):
     except kal.Failure as f:
         return engine.violation({"what": "process failure", **f.detail()}, kind="crash")
     except kal.Rejected as e:
+        bt = (e.info or {}).get("biotype")
+        if bt is not None and bt != (1 if want == "dna" else 0):
+            # the file's residues satisfy the premise, and kalign took the file for the other kind: whatever went wrong while
+            # reading, the property is about the file
+            return engine.violation({"what": "input satisfying the %s premise reported as biotype %d (the reader also returned other residues than the file holds)" % (want, bt),
+                                     "via": case["via"], "names": [x[:40] for x in case["names"][:2]]}, classes=cl)
         return engine.discard("reader did not return the residues: " + e.what)
     exp = 1 if want == "dna" else 0
     fid = finding_for(case, want)
@@ -326,6 +332,20 @@ def extra(tier, seed, stats):
             stats.classes["names_of_the_other_kind"] += 1
             if r["status"] == "violation":
                 out.append({"case": case, "detail": r["detail"], "kind": r.get("kind")})
+    # the same with FASTA header lines far beyond any line buffer (300 .. 70000 characters of the other kind's letters)
+    for want, seqs, word in (("dna", ["ACGTTGCA", "ACGATGCA", "ACTTGCA", "ACGTTGA"], "PROTEINKINASELIKEDEFHIKLMPQRSVWY "),
+                             ("protein", ["MKVLHHW", "MKILHW", "MKVHHW", "MKVLHW"], "ACGTACGTTTGGCCAANNNNACGT ")):
+        for hl in (300, 1100, 4200, 8300, 16500, 70000):
+            for which in (0, 3):
+                names = ["r%d" % i for i in range(4)]
+                names[which] = ("r%d " % which + word * (hl // len(word) + 1))[:hl]
+                case = {"seqs": seqs, "via": "fasta", "gapfrac": 0.0, "perm_seed": 3, "names": names, "names2": list(reversed(names)),
+                        "gap_seed": 1, "history": [], "nfiles": 1, "split_seed": 0}
+                r = check(case)
+                stats.record(case, r)
+                stats.classes["long_headers_of_the_other_kind"] += 1
+                if r["status"] == "violation":
+                    out.append({"case": case, "detail": r["detail"], "kind": r.get("kind")})
     # call history, enumerated: a small input of one kind observed after one or three large inputs of the other kind (array
     # and file calls in every combination): the decision is about the input at hand
     rnd_h = random.Random(seed + 5)
